@@ -432,6 +432,9 @@ def normalize(e):
         it = e['ch'][0]
         if it.get('k') == 'Call' and callee_is(it, 'IntoIterator::into_iter'):
             it = it['ch'][1]
+        if peel(it).get('k') == 'MethodCall' and callee_is(peel(it), 'IntoIterator::into_iter') and \
+                len(peel(it)['ch']) == 1:
+            it = peel(it)['ch'][0]            # `for x in v.into_iter()` is `for x in v`
         lp = e['arms'][0]['body']
         try:
             inner = lp['ch'][0]['stmts'][0]['e']
@@ -456,6 +459,12 @@ def normalize(e):
     if k == 'Struct' and e.get('def') and strip_generics(e['def']).endswith('ops::Range') \
             and len(e.get('fields', [])) == 2:
         fs = {f['field']: f['e'] for f in e['fields']}
+        hi = peel(fs['end'])
+        if hi.get('k') == 'Binary' and hi.get('op') == 'Add' and peel(hi['ch'][1]).get('k') == 'Lit' and \
+                peel(hi['ch'][1]).get('v') == '1' and 'usize' in (hi.get('ty') or 'usize'):
+            # `a..b + 1` over indices is `a..=b`
+            return {'k': 'Range', 'incl': True, 'ch': [fs['start'], hi['ch'][0]], 'sp': e.get('sp'),
+                    'id': e.get('id'), 'ty': e.get('ty'), 'from_plus_one': True}
         return {'k': 'Range', 'incl': False, 'ch': [fs['start'], fs['end']], 'sp': e.get('sp'),
                 'id': e.get('id'), 'ty': e.get('ty')}
     if k == 'Call' and callee_is(e, 'RangeInclusive::new'):
@@ -518,7 +527,11 @@ def normalize(e):
         cl = peel(e['ch'][1])
         if cl.get('k') == 'Closure' and len(cl.get('params', [])) == 1 and \
                 not any(x.get('k') == 'Ret' for x in walk(cl['ch'][0])):
-            return {'k': 'For', 'pat': cl['params'][0], 'ch': [e['ch'][0], cl['ch'][0]],
+            it = e['ch'][0]
+            if peel(it).get('k') == 'MethodCall' and callee_is(peel(it), 'IntoIterator::into_iter') and \
+                    len(peel(it)['ch']) == 1:
+                it = peel(it)['ch'][0]
+            return {'k': 'For', 'pat': cl['params'][0], 'ch': [it, cl['ch'][0]],
                     'sp': e.get('sp'), 'id': e.get('id'), 'ty': '()', 'via': 'for_each'}
     # `let mut i = a; .. while i < b { body; i += 1 }` is `for i in a..b { body }`
     if k == 'Block' and e.get('stmts'):
